@@ -35,7 +35,7 @@ func gCorpus(c *Ctx, mode int) []*corpus.Spec {
 			want[s.Name] = true
 		}
 	default:
-		for _, n := range []string{"expr_std", "expr_nonassoc", "etf", "lvalue", "sep_ba", "nqlalr", "list_null", "opt_mid", "dangling_else", "len4"} {
+		for _, n := range []string{"expr_std", "expr_nonassoc", "etf", "lvalue", "sep_ba", "nqlalr", "list_null", "opt_mid", "nullseq_OM", "etf_basefirst", "dangling_else", "len4"} {
 			want[n] = true
 		}
 	}
@@ -75,6 +75,7 @@ func gParse(c *Ctx, mode int, tag string) {
 		c.Inconclusive("%v", err)
 		return
 	}
+	specs = g.Specs
 	N := 4
 	if c.Thorough() {
 		N = 6
@@ -133,4 +134,15 @@ func gParse(c *Ctx, mode int, tag string) {
 	}
 	wg.Wait()
 	c.Programs = len(specs)
+	// inputs of any length: the emitted dense table is validated cell by cell against the
+	// Horn model of the LALR(1) automaton (premise of the standard LR correctness argument)
+	if mode&(modeSound|modeComplete) != 0 {
+		vspecs := specs
+		if c.Thorough() {
+			vspecs = append(append([]*corpus.Spec{}, corpus.Fixed()...), corpus.Random(c.Seed, 60)...)
+		}
+		c.vTableAll(y, vspecs, mode&modeSound != 0, mode&modeComplete != 0)
+		c.Bound("any input length (per grammar): every cell of the emitted dense table of %d grammars decided against the Horn model of the LALR(1) automaton (Z3 datalog); with C05's cell-wise equality of the packed look-up and the bounded driver exploration this covers parses of unbounded length under the standard LR argument", len(vspecs))
+		c.Assumptions = append(c.Assumptions, "the composition argument (table is an LALR(1) table + driver executes the table) is standard LR theory and part of the trusted base")
+	}
 }
